@@ -7,48 +7,66 @@ package main
 
 import (
 	"fmt"
+	"go/ast"
+	"go/parser"
+	"go/token"
 	"os"
 	"os/exec"
 	"path/filepath"
+	"sort"
+	"strconv"
 	"strings"
 )
 
 func init() { streams["tool-c01"] = runToolC01 }
 
-var c01Inputs = []struct {
+type moduleInput struct {
 	name  string
 	files map[string]string
 	args  []string
-}{
-	{"user package named source", map[string]string{
-		"source/t.go": "package source\n\ntype Out struct{ A int }\n",
-		"p/conv.go":   "package p\n\nimport \"example.org/m/source\"\n\ntype In struct{ A int }\n\n// goverter:converter\ntype C interface {\n\tConv(s In) source.Out\n}\n"}, []string{"./p"}},
-	{"user package named context, context parameter", map[string]string{
-		"context/t.go": "package context\n\ntype Out struct{ A int }\ntype Cfg struct{ N int }\n",
-		"p/conv.go":    "package p\n\nimport \"example.org/m/context\"\n\ntype In struct{ A int }\n\n// goverter:converter\ntype C interface {\n\t// goverter:context cfg\n\tConv(s In, cfg context.Cfg) context.Out\n}\n"}, []string{"./p"}},
-	{"two function-format converters, two files of one package, same helper", map[string]string{
-		"p/conv.go": "package p\n\ntype In struct{ A int }\ntype Out struct{ A int }\n\n// goverter:converter\n// goverter:output:format function\n// goverter:output:file ./gen/a.go\n// goverter:output:package example.org/m/p/gen\ntype A interface {\n\tConvA(s []*In) []*Out\n}\n\n// goverter:converter\n// goverter:output:format function\n// goverter:output:file ./gen/b.go\n// goverter:output:package example.org/m/p/gen\ntype B interface {\n\tConvB(s []*In) []*Out\n}\n"}, []string{"./p"}},
-	{"variadic extend function", map[string]string{
-		"p/conv.go": "package p\n\ntype In struct{ A []int }\ntype Out struct{ A string }\n\nfunc Sum(xs ...int) string { return \"\" }\n\n// goverter:converter\n// goverter:extend Sum\ntype C interface {\n\tConv(s In) Out\n}\n"}, []string{"./p"}},
-	{"variadic context parameter of a converter method", map[string]string{
-		"chk/chk.go": "package chk\n\nimport (\n\t\"example.org/m/p\"\n\t\"example.org/m/p/generated\"\n)\n\nvar _ p.C = &generated.CImpl{}\n",
-		"p/conv.go": "package p\n\ntype In struct{ A int }\ntype Out struct{ A int }\n\n// goverter:converter\ntype C interface {\n\t// goverter:context opts\n\tConv(source In, opts ...int) Out\n}\n"}, []string{"./p"}},
-	{"unsafe.Pointer field wrapped into a pointer", map[string]string{
-		"p/conv.go": "package p\n\nimport \"unsafe\"\n\ntype In struct{ F unsafe.Pointer }\ntype Out struct{ F *unsafe.Pointer }\n\n// goverter:converter\ntype C interface {\n\tConv(s In) Out\n}\n"}, []string{"./p"}},
-	{"struct types named like Go keywords' neighbours and temporaries", map[string]string{
-		"p/conv.go": "package p\n\ntype Source struct{ Target *Target2 }\ntype Target2 struct{ C int }\ntype Target struct{ Target *Target3 }\ntype Target3 struct{ C int }\n\n// goverter:converter\ntype C interface {\n\tConv(source Source) Target\n\tConv2(source []Source) []Target\n}\n"}, []string{"./p"}},
-	{"types of a package called generated, output in the default generated package", map[string]string{
-		"q/generated/t.go": "package generated\n\ntype Out struct{ A int }\n",
-		"p/conv.go":        "package p\n\nimport \"example.org/m/q/generated\"\n\ntype In struct{ A int }\n\n// goverter:converter\ntype C interface {\n\tConv(s In) generated.Out\n\tConvs(s []In) []generated.Out\n}\n"}, []string{"./p"}},
-	{"converter method named like a generated helper", map[string]string{
-		"p/conv.go": "package p\n\ntype In struct{ A int }\ntype Out struct{ A int }\n\n// goverter:converter\ntype C interface {\n\tPInToPOut(s []In) []Out\n\tConv(s []*In) []*Out\n}\n"}, []string{"./p"}},
+	// C18: per emitted file (path relative to the module root) the exact set of import paths it must have
+	wantImports map[string][]string
 }
 
-func runToolC01(cfg runCfg) {
-	rep := newReport("C01", cfg.seed, cfg.tier)
+var c01Inputs = []moduleInput{
+	{"user package named source", map[string]string{
+		"source/t.go": "package source\n\ntype Out struct{ A int }\n",
+		"p/conv.go":   "package p\n\nimport \"example.org/m/source\"\n\ntype In struct{ A int }\n\n// goverter:converter\ntype C interface {\n\tConv(s In) source.Out\n}\n"}, []string{"./p"}, nil},
+	{"user package named context, context parameter", map[string]string{
+		"context/t.go": "package context\n\ntype Out struct{ A int }\ntype Cfg struct{ N int }\n",
+		"p/conv.go":    "package p\n\nimport \"example.org/m/context\"\n\ntype In struct{ A int }\n\n// goverter:converter\ntype C interface {\n\t// goverter:context cfg\n\tConv(s In, cfg context.Cfg) context.Out\n}\n"}, []string{"./p"}, nil},
+	{"two function-format converters, two files of one package, same helper", map[string]string{
+		"p/conv.go": "package p\n\ntype In struct{ A int }\ntype Out struct{ A int }\n\n// goverter:converter\n// goverter:output:format function\n// goverter:output:file ./gen/a.go\n// goverter:output:package example.org/m/p/gen\ntype A interface {\n\tConvA(s []*In) []*Out\n}\n\n// goverter:converter\n// goverter:output:format function\n// goverter:output:file ./gen/b.go\n// goverter:output:package example.org/m/p/gen\ntype B interface {\n\tConvB(s []*In) []*Out\n}\n"}, []string{"./p"}, nil},
+	{"variadic extend function", map[string]string{
+		"p/conv.go": "package p\n\ntype In struct{ A []int }\ntype Out struct{ A string }\n\nfunc Sum(xs ...int) string { return \"\" }\n\n// goverter:converter\n// goverter:extend Sum\ntype C interface {\n\tConv(s In) Out\n}\n"}, []string{"./p"}, nil},
+	{"variadic context parameter of a converter method", map[string]string{
+		"chk/chk.go": "package chk\n\nimport (\n\t\"example.org/m/p\"\n\t\"example.org/m/p/generated\"\n)\n\nvar _ p.C = &generated.CImpl{}\n",
+		"p/conv.go": "package p\n\ntype In struct{ A int }\ntype Out struct{ A int }\n\n// goverter:converter\ntype C interface {\n\t// goverter:context opts\n\tConv(source In, opts ...int) Out\n}\n"}, []string{"./p"}, nil},
+	{"unsafe.Pointer field wrapped into a pointer", map[string]string{
+		"p/conv.go": "package p\n\nimport \"unsafe\"\n\ntype In struct{ F unsafe.Pointer }\ntype Out struct{ F *unsafe.Pointer }\n\n// goverter:converter\ntype C interface {\n\tConv(s In) Out\n}\n"}, []string{"./p"}, nil},
+	{"struct types named like Go keywords' neighbours and temporaries", map[string]string{
+		"p/conv.go": "package p\n\ntype Source struct{ Target *Target2 }\ntype Target2 struct{ C int }\ntype Target struct{ Target *Target3 }\ntype Target3 struct{ C int }\n\n// goverter:converter\ntype C interface {\n\tConv(source Source) Target\n\tConv2(source []Source) []Target\n}\n"}, []string{"./p"}, nil},
+	{"types of a package called generated, output in the default generated package", map[string]string{
+		"q/generated/t.go": "package generated\n\ntype Out struct{ A int }\n",
+		"p/conv.go":        "package p\n\nimport \"example.org/m/q/generated\"\n\ntype In struct{ A int }\n\n// goverter:converter\ntype C interface {\n\tConv(s In) generated.Out\n\tConvs(s []In) []generated.Out\n}\n"}, []string{"./p"}, nil},
+	{"goverter:variables generated into another package (the init() must qualify and import the variables' package)", map[string]string{
+		"model/t.go": "package model\n\ntype Row struct{ A int; L []int }\ntype Out struct{ A int; L []int }\n",
+		"chk/chk.go": "package chk\n\nimport (\n\t\"example.org/m/app\"\n\t\"example.org/m/model\"\n\t_ \"example.org/m/wiring\"\n)\n\nvar _ = app.ToOut(model.Row{})\n",
+		"app/conv.go": "package app\n\nimport \"example.org/m/model\"\n\n// goverter:variables\n// goverter:output:file ../wiring/conv.gen.go\n// goverter:output:package example.org/m/wiring\nvar (\n\tToOut  func(source model.Row) model.Out\n\tToOuts func(source []model.Row) []*model.Out\n)\n"}, []string{"./app"}, nil},
+	{"goverter:variables in their own package, two blocks in two files", map[string]string{
+		"app/a.go": "package app\n\ntype Row struct{ A int }\ntype Out struct{ A int }\n\n// goverter:variables\nvar (\n\tToOut func(source Row) Out\n)\n",
+		"app/b.go": "package app\n\n// goverter:variables\n// goverter:extend Twice\nvar (\n\tToOuts func(source []Row) []Out\n\tToInts func(source []int) []string\n)\n\nfunc Twice(i int) string { return \"\" }\n"}, []string{"./app"}, nil},
+	{"converter method named like a generated helper", map[string]string{
+		"p/conv.go": "package p\n\ntype In struct{ A int }\ntype Out struct{ A int }\n\n// goverter:converter\ntype C interface {\n\tPInToPOut(s []In) []Out\n\tConv(s []*In) []*Out\n}\n"}, []string{"./p"}, nil},
+}
+
+func runToolC01(cfg runCfg) { runModuleCorpus(cfg, "C01", c01Inputs) }
+
+func runModuleCorpus(cfg runCfg, prop string, inputs []moduleInput) {
+	rep := newReport(prop, cfg.seed, cfg.tier)
 	rep.Rule = "hand-picked module inputs (package names clashing with emitted identifiers, converters sharing a package, variadic signatures, unusual basic types, type names equal to temporaries) through the goverter CLI; on exit 0 the whole module incl. the emitted files must compile and the implementation must be assignable to the interface; non-trivial = goverter reported success; distinct by input"
 	bin := buildCLI(cfg)
-	for i, in := range c01Inputs {
+	for i, in := range inputs {
 		root, _ := filepath.Abs(filepath.Join(cfg.out, fmt.Sprintf("m%d", i)))
 		files := map[string]string{"go.mod": "module example.org/m\n\ngo 1.22\n"}
 		for k, v := range in.files {
@@ -69,6 +87,11 @@ func runToolC01(cfg runCfg) {
 			rep.violate(Violation{CaseID: fmt.Sprint(i), What: "goverter panicked on input class: " + in.name + ": " + firstLine(res.stderr), Sig: "cli-panic", Replay: replay})
 		}
 		if res.exit == 0 {
+			for rel, want := range in.wantImports {
+				if what := checkEmittedFile(filepath.Join(root, rel), want); what != "" {
+					rep.violate(Violation{CaseID: fmt.Sprint(i), What: rel + ": " + what + " (input class: " + in.name + ")", Sig: "emitted-file-shape", Replay: replay})
+				}
+			}
 			rep.sample(map[string]interface{}{"input": in.name})
 			cmd := exec.Command("go", "vet", "./...")
 			cmd.Dir = root
@@ -89,4 +112,56 @@ func runToolC01(cfg runCfg) {
 	}
 	os.Remove(bin)
 	rep.write(cfg.out)
+}
+
+// checkEmittedFile: the C18 clauses on one emitted file, stated directly: imports exactly want (never reflect / unsafe),
+// no package-level variables or constants, only the converter struct(s), functions / methods and init().
+func checkEmittedFile(path string, want []string) string {
+	fset := token.NewFileSet()
+	f, err := parser.ParseFile(fset, path, nil, 0)
+	if err != nil {
+		return "emitted file missing or not parseable: " + err.Error()
+	}
+	var got []string
+	for _, im := range f.Imports {
+		p, _ := strconv.Unquote(im.Path.Value)
+		got = append(got, p)
+		if p == "reflect" || p == "unsafe" {
+			return "imports " + p
+		}
+	}
+	sort.Strings(got)
+	w := append([]string{}, want...)
+	sort.Strings(w)
+	if strings.Join(got, " ") != strings.Join(w, " ") {
+		return fmt.Sprintf("imports %v, expected exactly %v", got, w)
+	}
+	for _, d := range f.Decls {
+		if gd, ok := d.(*ast.GenDecl); ok && (gd.Tok == token.VAR || gd.Tok == token.CONST) {
+			return "declares package-level state: " + gd.Tok.String()
+		}
+	}
+	return ""
+}
+
+// tool-c18: module inputs whose emitted files are checked against the C18 clauses directly (goverter:variables blocks
+// generated into their own / another package, fmt only with wrapErrors or enum @error/@panic, the wrapErrorsUsing package).
+func init() { streams["tool-c18"] = func(cfg runCfg) { runModuleCorpus(cfg, "C18", c18Inputs) } }
+
+var c18Inputs = []moduleInput{
+	{name: "goverter:variables generated into another package", files: map[string]string{
+		"model/t.go":  "package model\n\ntype Row struct{ A int; L []int }\ntype Out struct{ A int; L []int }\n",
+		"chk/chk.go":  "package chk\n\nimport (\n\t\"example.org/m/app\"\n\t\"example.org/m/model\"\n\t_ \"example.org/m/wiring\"\n)\n\nvar _ = app.ToOut(model.Row{})\n",
+		"app/conv.go": "package app\n\nimport \"example.org/m/model\"\n\n// goverter:variables\n// goverter:output:file ../wiring/conv.gen.go\n// goverter:output:package example.org/m/wiring\nvar (\n\tToOut  func(source model.Row) model.Out\n\tToOuts func(source []model.Row) []*model.Out\n)\n"},
+		args: []string{"./app"}, wantImports: map[string][]string{"wiring/conv.gen.go": {"example.org/m/app", "example.org/m/model"}}},
+	{name: "goverter:variables in their own package", files: map[string]string{
+		"app/a.go": "package app\n\ntype Row struct{ A int }\ntype Out struct{ A int }\n\n// goverter:variables\nvar (\n\tToOut func(source Row) Out\n\tToOuts func(source []Row) []Out\n)\n"},
+		args: []string{"./app"}, wantImports: map[string][]string{"app/a.gen.go": {}}},
+	{name: "goverter:variables with types of another package, own package", files: map[string]string{
+		"model/t.go": "package model\n\ntype Row struct{ A int }\ntype Out struct{ A int }\n",
+		"app/a.go":   "package app\n\nimport \"example.org/m/model\"\n\n// goverter:variables\nvar (\n\tToOut func(source model.Row) model.Out\n)\n"},
+		args: []string{"./app"}, wantImports: map[string][]string{"app/a.gen.go": {"example.org/m/model"}}},
+	{name: "interface converter: fmt only where wrapErrors is in effect", files: map[string]string{
+		"p/conv.go": "package p\n\nimport \"strconv\"\n\ntype In struct{ A string }\ntype Out struct{ A int }\n\nfunc Atoi(s string) (int, error) { return strconv.Atoi(s) }\n\n// goverter:converter\n// goverter:extend Atoi\n// goverter:output:file ./gen/plain.go\n// goverter:output:package example.org/m/p/gen\ntype Plain interface {\n\tConv(s In) (Out, error)\n}\n\n// goverter:converter\n// goverter:extend Atoi\n// goverter:wrapErrors\n// goverter:output:file ./genw/wrapped.go\n// goverter:output:package example.org/m/p/genw\ntype Wrapped interface {\n\tConv(s In) (Out, error)\n}\n"},
+		args: []string{"./p"}, wantImports: map[string][]string{"p/gen/plain.go": {"example.org/m/p"}, "p/genw/wrapped.go": {"example.org/m/p", "fmt"}}},
 }
